@@ -1,9 +1,11 @@
-import MuscleModel.Filter.Proofs2
+import MuscleModel.Filter.Proofs3
+import MuscleModel.Filter.ProofsLex
+import MuscleModel.Filter.ProofsRender
 
 /-!
 # C14 — Query filters evaluate as documented, survive archiving, tolerate bad archives
 
-Property theorems only (lemmas: `Filter/Proofs.lean`, `Filter/Proofs2.lean`).  `eval sm f msg node`
+Property theorems only (lemmas: `Filter/Proofs.lean`, `Proofs2.lean`, `Proofs3.lean`, `ProofsLex.lean`, `ProofsParse.lean`, `ProofsPrint.lean`, `ProofsRender.lean`).  `eval sm f msg node`
 mirrors `f.Matches(msg, node)` for every class of `regex/QueryFilter.h`, `toArchive`/`fromArchive`
 mirror `SaveToArchive` / the factory + `SetFromArchive`; the tie to the C++ code is the
 correspondence run of engine `qf`.  Every theorem is quantified over the StringMatcher stand-in
@@ -14,7 +16,11 @@ correspondence run of engine `qf`.  Every theorem is quantified over the StringM
 `MaximumThresholdQueryFilter` ("iff no more than (n)"), And/Or/Nand/Nor/Xor, including the rows the
 default constructors document for a filter with no children (And/Or: always true, Nand/Nor/Xor: always false).
 
-Not covered here: expression strings (`CreateQueryFilterFromExpression`) — not modelled in this version.
+Expression strings: `parseExpr` (`Filter/Lexer.lean`, `Filter/Parser.lean`) mirrors
+`CreateQueryFilterFromExpression`; it is a total function (`PRes`: error / filter / filter with an operand
+outside the exactly modelled `atof` subset), tied to the code by the `expr` / `exprt` ops.  Proved here:
+lexer progress (the termination measure), soundness (every parsed filter is `wf`, hence survives archiving) and
+`parse_print` (the canonical spelling of a tree of the documented grammar parses to its denotation).
 -/
 
 set_option linter.unusedSimpArgs false
@@ -130,6 +136,15 @@ theorem numeric_spec_float (t : NumTy) (ht : t = .f32 ∨ t = .f64) (a b : Bytes
     numCmp t nopGe a b = (ord && decide (fKey k x ≥ fKey k y)) ∧ numCmp t nopNe a b = (!ord || decide (fKey k x ≠ fKey k y)) :=
   numCmp_float t ht a b
 
+/-- `Point` / `Rect` (`Tuple<2,float>` / `Tuple<4,float>`): `==` is component-wise IEEE equality, `<` and `>` are
+    the lexicographic order in which component pairs that are equal *or unordered* are skipped (`lexLt`), and
+    `<=`, `>=`, `!=` are the *negations* of `>`, `<`, `==` (so with a NaN component `<=` and `>=` both hold). -/
+theorem numeric_spec_tuple (t : NumTy) (ht : t = .pt ∨ t = .rc) (a b : Bytes) :
+    let n := t.size / 4; let xy := (comps n a).zip (comps n b); let yx := (comps n b).zip (comps n a)
+    numCmp t nopEq a b = allEq xy ∧ numCmp t nopLt a b = lexLt xy ∧ numCmp t nopGt a b = lexLt yx ∧
+    numCmp t nopLe a b = !lexLt yx ∧ numCmp t nopGe a b = !lexLt xy ∧ numCmp t nopNe a b = !allEq xy :=
+  numCmp_tuple t ht a b
+
 /-- An operator code outside the enumeration matches nothing, whatever the type. -/
 theorem numeric_spec_bad_op (t : NumTy) (op : Nat) (a b : Bytes) (h : 6 ≤ op) : numCmp t op a b = false :=
   numCmp_bad_op t op a b h
@@ -175,23 +190,29 @@ theorem present_data_num (ty : NumTy) (fn : Bytes) (idx op mop : Nat) (val mask 
 
 /-! ## archiving -/
 
-/- FULL STATEMENT — only its second half is proved in this version (the first half, the syntactic round trip
-   through the archive, is validated on every generated tree by the `rt` / `arch` ops of the correspondence run, by the
-   restored-twin oracle of the harness, and by the `decide` examples at the end of this file that cover every class):
+/-- A filter restored from its archived form is the same filter up to `norm` (a zero-length
+    raw-data *value* buffer comes back as a NULL reference, which `Matches` treats identically) and
+    decides identically on every Message and node — for every well-formed filter tree of all 19
+    classes, nested to any depth.  `wf`: operands of the operand width, 32-bit indices / counts /
+    type codes, 8-bit operator codes, and no zero-length raw-data *default* (finding
+    `C14-rawdef-empty`: `SaveToArchive` drops it and the restored filter decides differently).
+    `fromArchive` supplies the archive's own nesting depth + 1 as fuel; `fdepth_le` shows that is enough. -/
+theorem archive_roundtrip (f : Filter) (h : wf f) :
+    fromArchive (toArchive f) = some (norm f) ∧ ∀ m nd, eval sm (norm f) m nd = eval sm f m nd :=
+  ⟨fromArchive_toArchive f h, fun m nd => eval_norm sm f m nd⟩
 
-   theorem archive_roundtrip (f : Filter) (h : wf f) :
-       fromArchive (toArchive f) = some (norm f) ∧ ∀ m nd, eval sm (norm f) m nd = eval sm f m nd
+/-- …stated for the fuel-indexed factory: any fuel of at least the tree depth gives the same answer. -/
+theorem archive_roundtrip_fuel (f : Filter) (h : wf f) (fuel : Nat) (hf : fdepth f ≤ fuel) :
+    fromArchiveF fuel (toArchive f) = some (norm f) :=
+  roundtripF f fuel h hf
 
-   `wf`: operands of the operand width, 32-bit indices/counts/type codes, 8-bit operator codes, and no zero-length
-   raw-data default (finding `qf-rawdef-empty`: `SaveToArchive` drops it and the restored filter decides differently). -/
-
-/-- The one thing an archive cannot represent — a zero-length (as opposed to NULL) raw-data value
-    buffer, which comes back as NULL (`norm`) — never changes a decision: the normal form decides
-    identically on every Message and node, for every filter tree.  MISSING for the full
-    `archive_roundtrip`: `fromArchive (toArchive f) = some (norm f)` for every `wf f`. -/
-theorem archive_roundtrip_partial (f : Filter) (m : Msg) (nd : Option Node) :
-    eval sm (norm f) m nd = eval sm f m nd :=
-  eval_norm sm f m nd
+/-- Consequence: the restored filter itself round-trips to itself (archiving is idempotent after one trip)
+    whenever it is well-formed, and decides like the original. -/
+theorem archive_roundtrip_decides (f g : Filter) (h : wf f) (hg : fromArchive (toArchive f) = some g) (m : Msg) (nd : Option Node) :
+    eval sm g m nd = eval sm f m nd := by
+  rw [fromArchive_toArchive f h] at hg
+  cases hg
+  exact eval_norm sm f m nd
 
 /-- Building a filter from an arbitrary Message either fails or yields a completely initialised
     filter: every numeric operand and mask has the operand width, every child exists and is itself
@@ -213,7 +234,85 @@ theorem fromArchive_bad_child (fuel : Nat) (a : Msg) (k : Msg) (hk : k ∈ kidAr
     (hw : a.what = qfMinMatch ∨ a.what = qfMaxMatch ∨ a.what = qfXor) : fromArchiveF (fuel + 1) a = none :=
   fromArchiveF_bad_child fuel a k hk hbad hw
 
+/-! ## expression strings -/
+
+/-- Every call of `Lexer::GetNextToken` consumes at least one character of the expression, except when it returns
+    an empty unquoted user string (in front of a vertical tab / form feed, which end a user string but are not
+    skipped) — and then it gives nothing back.  This is the termination measure of the parser: each iteration of a
+    token loop of `CreateQueryFilterFromExpressionAux` either shortens the input or appends a plain token to a list
+    that is rejected beyond four entries, and each recursive call is preceded by the consumption of a `(`;
+    `parseExpr` therefore runs its loop with `6·(length+1)` units of fuel. -/
+theorem lexer_progress (s : Bytes) (t : Tok) (r : Bytes) (h : nextToken s = some (t, r)) :
+    r.length < s.length ∨ (r.length ≤ s.length ∧ t = .user [] false) :=
+  nextToken_progress s t r h
+
+/-- A fixed token or synonym is never empty. -/
+theorem lexer_token_nonempty (s : Bytes) (id n : Nat) (h : getMatchingToken s = some (id, n)) : 1 ≤ n :=
+  getMatchingToken_pos s id n h
+
+/-- Soundness: whatever filter `CreateQueryFilterFromExpression` builds from ANY character string is well-formed
+    (operands of the operand width, 32-bit indices, 8-bit operators, children in place) … -/
+theorem parser_sound (s : Bytes) (f : Filter) (h : parseExpr s = .ok f) : wf f :=
+  parseExpr_wf s f h
+
+/-- … and therefore survives archiving: the restored filter decides identically on every Message. -/
+theorem parser_archive (s : Bytes) (f : Filter) (h : parseExpr s = .ok f) :
+    fromArchive (toArchive f) = some (norm f) ∧ ∀ m nd, eval sm (norm f) m nd = eval sm f m nd :=
+  archive_roundtrip sm f (parseExpr_wf s f h)
+
+/-- `parse_print`.  `Ast` is the abstract syntax of the documented grammar (a predicate of 2–4 plain tokens, `!`,
+    n-ary `&&` / `||` / `^`), `denote` the filter the grammar assigns to a tree (`leafOf` for predicates,
+    `NorQueryFilter` for `!`, And/Or/Xor for the conjunctions), `printT` its canonical spelling as tokens (every term
+    in its own parentheses) and `render` writes the tokens as characters, one blank after each.  For every tree whose
+    tokens are printable (`printableTok`, `Filter/ProofsRender.lean`: every fixed token; quoted strings without `"`;
+    unquoted words that are non-empty, free of white space, do not begin with `"` or with a token/synonym, and in
+    which no non-letter character starts a token/synonym) parsing the printed characters yields EXACTLY the
+    denotation — in particular a filter that decides identically on every Message. -/
+theorem parse_print (a : Ast) (f : Filter) (hok : okAst a) (hpr : ∀ t ∈ printT a, printableTok t = true)
+    (hd : denote a = some f) :
+    parseExpr (render (printT a)) = .ok f ∧
+    ∀ g, parseExpr (render (printT a)) = .ok g → ∀ m nd, eval sm g m nd = eval sm f m nd := by
+  have h := parseExpr_render a f hok hpr hd
+  refine ⟨h, fun g hg m nd => ?_⟩
+  rw [h] at hg
+  cases hg
+  rfl
+
+/-- The same at the level of tokens, for ANY token source that delivers the canonical spelling (no printability needed):
+    the recursive-descent loop is a correct parser of the grammar. -/
+theorem parse_print_tokens (a : Ast) (f : Filter) (hok : okAst a) (hd : denote a = some f) (b : Bytes)
+    (hl : Lexes b (printT a)) (fuel : Nat) (hf : sizeA a + 2 ≤ fuel) :
+    (parseLoopWith nextToken fuel {} b).1 = .ok f :=
+  parse_of_lexes a f hok hd b hl fuel hf
+
+/-- Rendered printable tokens lex back to themselves, whatever they are (not only spellings of trees). -/
+theorem lex_render (ts : List Tok) (h : ∀ t ∈ ts, printableTok t = true) : Lexes (render ts) ts :=
+  lexes_render ts h
+
 /-! ## non-vacuity -/
+
+-- the table is scanned from its last entry: `!=`, `<=`, `>=`, `(int32)` win over `!`, `<`, `>`, `(`
+example : getMatchingToken [33, 61, 53] = some (ltNeq, 2) ∧ getMatchingToken [60, 61, 53] = some (ltLeq, 2) ∧
+          getMatchingToken [62, 61, 32, 53] = some (ltGeq, 2) ∧ getMatchingToken [40, 73, 78, 84, 51, 50, 41, 53] = some (ltInt32, 7) ∧
+          getMatchingToken [33, 120] = some (ltNot, 1) ∧ getMatchingToken [61, 32, 53] = some (ltEq, 1) ∧
+          getMatchingToken [73, 115, 32, 53] = some (ltEq, 3) ∧ getMatchingToken [105, 115, 101, 110, 100, 111, 102, 32, 120] = some (ltIsendof, 8) ∧
+          getMatchingToken [97, 103, 101] = none := by decide
+-- `(eyecolor == "green") && (!(age:1 >= 21))`, canonically spelled, is printable, denotes a filter and parses to it
+def sampleAst : Ast :=
+  .conj ltAnd [ .leaf [.user [101,121,101,99,111,108,111,114] false, .fixed ltEq, .user [103,114,101,101,110] true],
+                .not (.leaf [.user [97,103,101,58,49] false, .fixed ltGeq, .user [50,49] false]) ]
+example : okAst sampleAst := by
+  simp [sampleAst, okAst, okKids, plainTok, ltAnd, ltEq, ltGeq, ltNot, ltLparen, ltRparen, ltOr, ltXor]
+example : (∀ t ∈ printT sampleAst, printableTok t = true) ∧ (denote sampleAst).isSome = true := by decide
+example : (match parseExpr (render (printT sampleAst)), denote sampleAst with
+           | .ok g, some f => feq g f | _, _ => false) = true := by decide
+-- words the repaired lexer keeps whole / still refuses as unquoted field names
+example : printableTok (.user [115,111,109,101,119,104,97,116] false) = true ∧      -- somewhat
+          printableTok (.user [119,104,97,116,101,118,101,114] false) = false ∧     -- whatever (begins with `what`)
+          printableTok (.user [97,60,98] false) = false := by decide                -- a<b
+-- a vertical tab: an empty token and no progress
+example : nextToken [11, 97] = some (.user [] false, [11, 97]) := by decide
+
 
 def sampleFilter : Filter :=
   .minMatch 0 [ .num .i32 [97] 0 nopLt mopNone [5, 0, 0, 0] [0, 0, 0, 0] (some [1, 0, 0, 0]),
@@ -245,6 +344,10 @@ example : wf sampleAll := by
     nopNe, nopGe, nopEq, nopGt, mopXor, mopNone, mopAnd, sopContains, sopEq, ropLt, ropSubsetOf]
 example : roundTripsTo sampleAll = true := by decide
 example : fromArchive (.mk qfInt32 [(kFn, .strs .inl [[97]])]) = none := by decide     -- "val" missing: rejected
+-- a Point with a NaN component is both `<=` and `>=` (1.0, NaN) yet not `==`
+example : numCmp .pt nopLe [0,0,128,63, 0,0,192,127] [0,0,128,63, 0,0,128,63] = true ∧
+          numCmp .pt nopGe [0,0,128,63, 0,0,192,127] [0,0,128,63, 0,0,128,63] = true ∧
+          numCmp .pt nopEq [0,0,128,63, 0,0,192,127] [0,0,128,63, 0,0,128,63] = false := by decide
 example : ∃ m nd, findData [97] tcInt32 0 m = none ∧ eval (fun _ _ _ => false) (.num .i32 [97] 0 nopEq mopNone [1,0,0,0] [0,0,0,0] (some [1,0,0,0])) m nd = true :=
   ⟨.mk 0 [], none, by decide, by decide⟩
 
